@@ -22,6 +22,7 @@ type Explorer struct {
 	MaxPoints int
 	Capped    string // non-empty when the search stopped before exhausting the space
 	Horizons  int64
+	Restarts  int
 	visited   map[uint64]int16
 	stop      bool
 }
@@ -38,16 +39,23 @@ func (e *Explorer) budget(pre int) int16 {
 // Explore runs body under every schedule within the bound. body must build all of its state from
 // scratch on every call (it is executed once per schedule).
 func (e *Explorer) Explore(body func()) {
-	if e.visited == nil {
+	for {
 		e.visited = map[uint64]int16{}
+		NewShared = false
+		e.explore(nil, body)
+		if !LocalElision || !NewShared || e.stop {
+			return
+		}
+		// an object believed thread-local was touched by a second thread: the set of scheduling points
+		// has grown, explore again from scratch (iterates to a fixpoint; counts accumulate)
+		e.Restarts++
 	}
-	e.explore(nil, body)
 }
 
 func (e *Explorer) States() int { return len(e.visited) }
 
 func (e *Explorer) explore(prefix []int, body func()) {
-	if e.stop {
+	if e.stop || (LocalElision && NewShared) {
 		return
 	}
 	if !e.Deadline.IsZero() && time.Now().After(e.Deadline) {
@@ -111,6 +119,16 @@ func (e *Explorer) explore(prefix []int, body func()) {
 
 // CheckDeterminism replays one schedule twice and compares the recorded points.
 func CheckDeterminism(prefix []int, body func()) error {
+	if LocalElision {
+		// let the default schedule teach which objects are shared before comparing two runs
+		for i := 0; i < 100; i++ {
+			NewShared = false
+			Run(prefix, RunOpts{}, body)
+			if !NewShared {
+				break
+			}
+		}
+	}
 	a := Run(prefix, RunOpts{Verbose: true}, body)
 	b := Run(prefix, RunOpts{Verbose: true}, body)
 	if len(a.Points) != len(b.Points) {
